@@ -47,6 +47,8 @@ def valid(toks, seps):
     for a, b, s in zip(toks, toks[1:], ("sp",) + tuple(seps)):
         if s == "adj" and not (a in ATOMIC_STR or b in ATOMIC_STR):
             return False
+        if s == "adj" and a.endswith("`") and b.startswith("`"):
+            return False  # the two backtick runs would merge into one longer run: these are no longer the two code spans
         # a multi-line tag token followed/preceded by nothing special is fine
     return True
 
